@@ -32,12 +32,14 @@ Print Assumptions C03_reading_total.
 Theorem C03_no_keys_no_output : forall C tbl parts keylog s r d, r_type r = 0x17 -> ts_can_decrypt s = false ->
   handle_tls_record C tbl parts keylog s r d = Ok (s, []).
 Proof. exact no_keys_no_output. Qed.
+Print Assumptions C03_no_keys_no_output.
 Theorem C03_missing_secrets : forall C tbl parts keylog s v cs sr, find_session_secrets keylog s = [] ->
   generate_keys C tbl parts keylog s v cs sr = Ok (set_can s false).
 Proof. exact missing_secrets. Qed.
 Theorem C03_unknown_suite : forall C tbl parts keylog s v cs sr, split_cipher_suite tbl parts (from_be cs) = None ->
   generate_keys C tbl parts keylog s v cs sr = Ok (set_can s false).
 Proof. exact unknown_suite. Qed.
+Print Assumptions C03_unknown_suite.
 Print Assumptions C03_missing_secrets.
 
 (* a record that does not decrypt (wrong secrets, flipped bit, shortened payload) is dropped: never exported as it is, no invented bytes,
